@@ -430,6 +430,8 @@ def fam_lock(tier, base):
     viols, tr = verif.validate_trace("Trace_Lock", "Trace_Lock.cfg", trace)
     lines = verif.read_lines(trace)
     cnt = lambda s: sum(1 for ln in lines if s in ln)
+    if cnt('"ev":"LockRun"') < (3 if q else 20) or cnt('"ev":"LossRun"') < (4 if q else 16):
+        raise Broken("too many lock runs were dropped because the driver process was starved of CPU (%d contention, %d loss runs left)" % (cnt('"ev":"LockRun"'), cnt('"ev":"LossRun"')))
     return dict(trace=trace, viols=viols, states=r.distinct, transitions=r.generated, configs=["MC_Lock.cfg", "LockInd.tla (Apalache: IndInv inductive)", "Trace_Lock.cfg"], window=6,
                 traces={"C18": cnt('"ev":"LockRun"') + cnt('"ev":"LossRun"'), "C19": cnt('"ev":"LossRun"')},
                 samples={"*": [json.loads(x) for x in lines[:6]], "C19": [json.loads(x) for x in lines if '"Expire"' in x or '"CtxDone"' in x][:4]},
@@ -458,6 +460,8 @@ def fam_ephemeral(tier, base):
     viols, tr = verif.validate_trace("Trace_Ephemeral", "Trace_Ephemeral.cfg", trace)
     lines = verif.read_lines(trace)
     cnt = lambda s: sum(1 for ln in lines if s in ln)
+    if cnt('"ev":"EphRun"') < n:      # every schedule runs on two backends: at least half must have been judgeable
+        raise Broken("too many ephemeral schedules were dropped because the driver process was starved of CPU (%d of %d left)" % (cnt('"ev":"EphRun"'), 2 * n))
     return dict(trace=trace, viols=viols, states=r.distinct, transitions=r.generated, configs=[cfg, "Trace_Ephemeral.cfg"], window=12,
                 traces={"*": cnt('"ev":"EphRun"')}, samples={"*": [json.loads(x) for x in lines[:9]]}, nontrivial={"C26": cnt('"op":"lapse"')},
                 notes="%d TLC-generated schedules (all register/lapse/deregister sequences of %d ops over %d registrants, model invariants Exclusive/OwnerSafe, liveness LapseNoticed) replayed on both backends; %d induced lapses" % (n, 5 if tier == "quick" else 6, 2 if tier == "quick" else 3, cnt('"op":"lapse"')))
@@ -572,6 +576,8 @@ def fam_store_status(tier, base):
     viols, tr = verif.validate_trace("Trace_StoreStatus", "Trace_StoreStatus.cfg", trace, heap="8g")
     lines = verif.read_lines(trace)
     cnt = lambda s: sum(1 for ln in lines if s in ln)
+    if cnt('"b":"etcd","ev":"StRun"') < (60 if q else 600):
+        raise Broken("too many etcd status sequences were dropped because the driver process was starved of CPU (%d left)" % cnt('"b":"etcd","ev":"StRun"'))
     return dict(trace=trace, viols=viols, states=r.distinct, transitions=r.generated + gen, configs=["MC_StoreStatus_small.cfg", "MC_StoreStatus_sim.cfg", "Trace_StoreStatus.cfg"], window=11,
                 exhaustive=False, traces={"*": cnt('"ev":"StRun"')}, samples={"*": [json.loads(x) for x in lines[:4]]},
                 nontrivial={"C25": cnt('"op":"report"')},
@@ -727,6 +733,8 @@ def fam_selfmon(tier, base):
     viols, tr = verif.validate_trace("Trace_Selfmon", "Trace_Selfmon.cfg", trace)
     lines = verif.read_lines(trace)
     cnt = lambda s: sum(1 for ln in lines if s in ln)
+    if cnt('"starved":true') > max(2, len(lines) // 5):
+        raise Broken("the driver process was starved of CPU during %d of %d histories" % (cnt('"starved":true'), len(lines)))
     return dict(trace=trace, viols=viols, states=r.distinct, transitions=r.generated + gen, configs=["MC_Selfmon_small.cfg", "MC_Selfmon_sim.cfg", "Trace_Selfmon.cfg"], window=1,
                 exhaustive=False, traces={"*": len(lines)}, samples={"*": [json.loads(x) for x in lines[:2]]},
                 nontrivial={"C28": sum(1 for ln in lines if '"started":true' in ln and ('"op":"lapse"' in ln or '"op":"expire"' in ln))},
